@@ -255,6 +255,13 @@ def gen_cases(tier, rng, info):
         for cop, bad in cs:
             cases.append({'op': 'bibparse', 'pre': pre, 'bad': bad, 'post': post, 'kind': kind, 'cop': cop})
             ncorr += 1
+        # the same document with the three parts on ONE physical line (the next command starts on the line of the error)
+        cs = list(corruptions(entry))
+        if tier == 'quick':
+            cs = cs[1::3]
+        for cop, bad in cs:
+            cases.append({'op': 'bibparse', 'pre': pre.rstrip('\n') + ' ', 'bad': bad, 'post': ' ' + post.lstrip('\n'), 'kind': kind, 'cop': cop + '/same-line'})
+            ncorr += 1
     info['exhaustive'] = True
     info['scope'] = ('%d strings of length <= %d over %r (length >= 4 only with an "@"); %d single-token corruptions of one entry in %d base documents'
                      % (nstr, maxlen, ALPHA, ncorr, len(BASE_DOCS)))
